@@ -32,6 +32,13 @@ def run(ctx):
     chk.residue.append("tracing's own span bookkeeping (which span is current on which thread) is not decided")
 
     # ---------------- C17.a
+    def _narrowed(src):
+        """name of an adapter on the iteration source that selects or truncates (take, skip, filter, ...), or None"""
+        for x in sym_walk(src):
+            if isinstance(x, tuple) and x and x[0] == "call" and isinstance(x[1], str) and "iter" in x[1] and strip_generics(x[1]).split("::")[-1] in ("take", "skip", "step_by", "filter", "take_while", "skip_while", "filter_map", "nth"):
+                return strip_generics(x[1]).split("::")[-1]
+        return None
+
     def _own(txt):
         """the freshly built Labels of this callback: Labels::from_record(..), or Labels::default() filled by
         attrs/values.record(&mut labels)"""
@@ -99,6 +106,8 @@ def run(ctx):
                 if tests:
                     m_it = tests[-1]
             src, why = iteration_context(m_it)
+            if src is not None and _narrowed(src):
+                src, why = None, f"only part of the other map is visited ({_narrowed(src)}(..) on the iteration): labels beyond it are not inherited"
             okp = src is not None and any(isinstance(x, tuple) and x and x[0] == "call" and sym_is_call(x, "parent") and "SpanRef" in str(x[1]) for x in sym_walk(src))
             detail = why or "the merged map is not the parent's"
             # ... of the direct parent itself: its labels are already the merged view of the whole ancestry (nearest wins);
@@ -148,6 +157,8 @@ def run(ctx):
         ok = names == {"insert"} and len(muts) == 1
         if ok:
             src, why = iteration_context(muts[0])
+            if src is not None and _narrowed(src):
+                src = None
             from props.common import actual_of
 
             dst = actual_of(muts[0].fn, Sym(muts[0].fn).operand(muts[0].args[0]))
